@@ -63,6 +63,13 @@ ATOMS: list[tuple[str, tuple[str, ...], bool, str]] = [
     ("PEEK[0..0]", (), True, ""),
     ("PEEK[-2..0]", (), True, ""),
     ("PEEK[0..]", (), True, ""),
+    # bounds beyond the depth of the stack (at most two entries in the kernel's contexts): clamped like Python slices
+    ("PEEK[-3..]", (), True, ""),
+    ("PEEK[..-3]", (), True, ""),
+    ("PEEK[-3..-1]", (), True, ""),
+    ("PEEK[2..]", (), True, ""),
+    ("PEEK[..3]", (), True, ""),
+    ("PEEK[-1..-3]", (), True, ""),
     # the empty string on the stack, and the stack observed right after a conditional push
     ('PUSH("a"?) ~ PEEK', (), True, ""),
     ('PUSH("a"*) ~ PEEK_ALL', (), True, ""),
@@ -504,6 +511,37 @@ def skip_trivia_cases() -> list[dict]:
                      + (trules + "\n" if trules else ""))
                 cases.append({"family": "OPT", "label": f"skip-until under trivia {tlabel} / start {mod or 'normal'}",
                               "grammar": g, "rules": ["start"], "alphabet": alphabet_for("", textra)[:4],
+                              "maxlen": 4, "starts": "zero", "passes": None})
+    return cases
+
+
+def skip_rep_cases() -> list[dict]:
+    """Deterministic: the skip-until trigger `(!stop ~ ANY)` under EVERY repetition operator (only `*` may be
+    rewritten), with the pass lists in which "skip" sees the operator before / after / without "unroll"."""
+    cases = []
+    for op in ("*", "+", "?", "{2}", "{1,}", "{,2}", "{1,2}", "{0}"):
+        for passes in (None, ["skip"], ["skip", "unroll"], ["unroll", "skip"], ["skip", "skip"]):
+            for mod, trules, textra in (("@", "", ""), ("$", 'WHITESPACE = _{ " " }', " "), ("", "", ""),
+                                        ("", 'WHITESPACE = _{ " " }', " ")):
+                for stop in ('"b"', '("b" | "ab")'):
+                    g = (f'start = {{ "a"? ~ body ~ "b"? }}\nbody = {mod}{{ (!{stop} ~ ANY){op} }}\n'
+                         + (trules + "\n" if trules else ""))
+                    cases.append({"family": "OPT", "label": f"skip-until trigger under {op} / passes {passes}",
+                                  "grammar": g, "rules": ["start", "body"], "alphabet": alphabet_for("", textra)[:3],
+                                  "maxlen": 4, "starts": "zero", "passes": passes})
+    return cases
+
+
+def skip_name_cases() -> list[dict]:
+    """Deterministic: a grammar rule that happens to be called SKIP (the name the optimizer gives its fused trivia
+    rule) under every trivia configuration: it must stay an ordinary rule — never matched implicitly, never replaced."""
+    cases = []
+    for tlabel, trules, textra in TRIVIA:
+        for smod in ("", "_", "@"):
+            for body in ('SKIP ~ "b"', '"a" ~ "b" ~ SKIP?', '"a" ~ (SKIP | "b")* ~ "a"'):
+                g = (f'start = {{ {body} }}\nSKIP = {smod}{{ "x" }}\n' + (trules + "\n" if trules else ""))
+                cases.append({"family": "OPT", "label": f"user rule named SKIP under trivia {tlabel}",
+                              "grammar": g, "rules": ["start", "SKIP"], "alphabet": alphabet_for("abx", textra)[:5],
                               "maxlen": 4, "starts": "zero", "passes": None})
     return cases
 
